@@ -19,11 +19,17 @@ Sha3Algs == {"sha3_224", "sha3_256", "sha3_384", "sha3_512"}
 ShakeAlgs == {"shake128", "shake256"}
 BlakeAlgs == {"blake2s256", "blake2s", "keyedblake2s"}
 
+\* skip: bytes counted but not processed (verification hook of the SHA-2 types; zero otherwise)
 Fresh(alg, key, outlen) == [alg |-> alg, msg |-> <<>>, mode |-> "in", pos |-> 0,
-                            key |-> key, outlen |-> outlen]
+                            key |-> key, outlen |-> outlen, skip |-> Zero]
+Sha2W(alg) == IF alg \in {"sha224", "sha256"} THEN 32 ELSE 64
+Sha2IV(alg) == CASE alg = "sha224" -> SHA_IV224 [] alg = "sha256" -> SHA_IV256 [] alg = "sha384" -> SHA_IV384
+                 [] alg = "sha512" -> SHA_IV512 [] alg = "sha512_224" -> IV512_224 [] OTHER -> IV512_256
+Sha2Out(alg) == CASE alg \in {"sha224", "sha512_224"} -> 28 [] alg \in {"sha256", "sha512_256"} -> 32 [] alg = "sha384" -> 48 [] OTHER -> 64
 
 Digest(h) ==
-    CASE h.alg = "sha224" -> SHA224(h.msg)
+    CASE h.alg \in Sha2Algs /\ h.skip # Zero -> ShaHashX(h.msg, Sha2IV(h.alg), Sha2W(h.alg), Sha2Out(h.alg), h.skip)
+      [] h.alg = "sha224" -> SHA224(h.msg)
       [] h.alg = "sha256" -> SHA256(h.msg)
       [] h.alg = "sha384" -> SHA384(h.msg)
       [] h.alg = "sha512" -> SHA512(h.msg)
@@ -41,7 +47,9 @@ Stream(h, n) ==
     IN SubSeq(s, h.pos + 1, h.pos + n)
 
 Update(h, data) == [h EXCEPT !.msg = h.msg \o data]
-Reset(h) == [h EXCEPT !.msg = <<>>, !.mode = "in", !.pos = 0]
+Reset(h) == [h EXCEPT !.msg = <<>>, !.mode = "in", !.pos = 0, !.skip = Zero]
+\* the hook advances the count of processed bytes by whole blocks
+Skip(h, nblocks) == [h EXCEPT !.skip = Add(h.skip, Mul(nblocks, FromInt(2 * Sha2W(h.alg))))]
 \* which finalization calls leave the instance reset
 Resets(alg, call) == alg \notin BlakeAlgs \/ call \in {"finalize_reset", "finalize_reset_write", "digest"}
 AfterFinalize(h, call) == IF Resets(h.alg, call) THEN Reset(h) ELSE [h EXCEPT !.mode = "dead"]
